@@ -216,7 +216,7 @@ def main():
         from pymoca.backends.casadi.alias_relation import AliasRelation
         from vk.pysym.concrete import replay_history
         hist = json.load(open(a.replay))["replay"]["history"]
-        bad = replay_history(AliasRelation, 3, hist)
+        bad = replay_history(AliasRelation, 4, hist)
         print(f"replay {hist}: {bad or 'holds'}")
         return 1 if bad else 0
     rep = Report(PROP, a.tier, "model_checking", a.seed)
@@ -264,7 +264,7 @@ def main():
     from pymoca.backends.casadi.alias_relation import AliasRelation
     from vk.pysym.concrete import explore, replay_history
     t = time.time()
-    ex = explore(AliasRelation, 3)
+    ex = explore(AliasRelation, 4, max_states=100000)  # 4 base names: two non-trivial classes can coexist and merge
     ex_s = time.time() - t
     sat = [r for r in results if r["result"] == "sat"]
     unknown = [r for r in results if r["result"] not in ("sat", "unsat")]
@@ -277,7 +277,7 @@ def main():
             rep.note_inconclusive(f"{r['op']}/{r['order']}/{r['goal']}: {r['result']}")
     if ex["violation"]:
         hist, what = ex["violation"]
-        bad = replay_history(AliasRelation, 3, hist)
+        bad = replay_history(AliasRelation, 4, hist)
         if bad:
             rep.violation("history:" + ";".join(",".join(op) for op in hist), f"real AliasRelation after {list(hist)}: {bad}",
                           {"history": [list(op) for op in hist], "what": bad, "solver_goals_refuted": [f"{r['op']}:{r['goal']}" for r in sat][:10]})
@@ -317,7 +317,7 @@ def main():
     cov["encoding"] = meta[:8]
     cov["reachability_witnesses"] = reach
     cov["vacuity_canaries"] = canary
-    cov["real_class_exploration"] = {"N": 3, "states_up_to_equivalence": ex["states"], "transitions_checked": ex["transitions"],
+    cov["real_class_exploration"] = {"N": 4, "states_up_to_equivalence": ex["states"], "transitions_checked": ex["transitions"],
                                      "fixpoint_reached": ex["complete"], "secs": round(ex_s, 2)}
     cov["translator_validation"] = {"real_transitions_pushed_through_encoding": nval, "mismatches": sum(len(v["mismatches"]) for v in val)}
     rep.assumptions += [
